@@ -52,6 +52,20 @@ func TestVerifC37(t *testing.T) {
 				line = -5
 			}
 			name := r.Pick(names)
+			if ls := bytes.Split(content, []byte("\n")); line >= 1 && line <= len(ls) && r.Chance(70) {
+				// mostly pick a (sub)word that occurs on the chosen line
+				if l := ls[line-1]; len(l) > 0 {
+					// ctags names reach Convert through go-ctags' JSON decoding, hence are always valid UTF-8:
+					// slice the line on rune boundaries only.
+					rs := []rune(string(l))
+					a := r.Intn(len(rs))
+					b := a + 1 + r.Intn(4)
+					if b > len(rs) {
+						b = len(rs)
+					}
+					name = string(rs[a:b])
+				}
+			}
 			kind := r.Pick(kinds)
 			tags = append(tags, &ctags.Entry{Name: name, Line: line, Kind: kind, Parent: fmt.Sprint("p", j)})
 			ctags_ = append(ctags_, cTuple(cZ(int64(line)), cStr(name), cN(uint64(j))))
